@@ -242,7 +242,7 @@ func genC20(c *Ctx) {
 	}
 	// 2. end to end through the real command: files of every format whose attacker-controlled
 	// strings are hostile, as a file argument, on standard input and in a recursive scan
-	rounds := 20
+	rounds := 30
 	if c.Thorough() {
 		rounds = 150
 	}
